@@ -26,6 +26,19 @@ inductive VE where
   | ifNone (c a b : VE)        -- `a if c is None else b`
 deriving DecidableEq, Repr
 
+/-- the element type of a numpy array, as far as it matters here: what a STORE into the array keeps of a value.  `_project_params_up`
+    allocates its output and stores free and fixed values into it; `Generated/Optim.lean` `upOutDtype` says (from the allocation
+    statement) which element type the output gets, as a function of the element type numpy infers for the reduced vector. -/
+inductive DType where
+  | int                        -- any integer dtype: a store truncates toward zero (0.25 ↦ 0, -1.5 ↦ -1)
+  | float                      -- float64: a store keeps the value (the model is exact-rational)
+deriving DecidableEq, Repr
+
+/-- `a[i] = x` for an array `a` of this element type -/
+def DType.store : DType → Rat → Rat
+  | .float, x => x
+  | .int, x => ((Int.tdiv x.num (x.den : Int) : Int) : Rat)
+
 /-- one optimiser wrapper as read from the source -/
 structure Wrapper where
   name : String              -- `optimize_log`, `opt[log_opt=True]`, …
